@@ -1545,11 +1545,12 @@ class SpaceManager(SharedSpaceOperations):
             is_relative = False
             if name in subspace.own_refs:
                 continue
+            subvalue = value    # the value bound in this sub space only
             if isinstance(value, Interface) and value._is_valid():
                 if refmode == "auto" or refmode == "relative":
-                    is_relative, value = self.get_relative_interface(
+                    is_relative, subvalue = self.get_relative_interface(
                         subspace, space.own_refs[name])
-            ref = subspace.on_create_ref(name, value, is_derived=True,
+            ref = subspace.on_create_ref(name, subvalue, is_derived=True,
                                    refmode=refmode)
             ref.is_relative = is_relative
 
@@ -1574,12 +1575,13 @@ class SpaceManager(SharedSpaceOperations):
                 continue
             elif subref.defined_bases[0] is not space.own_refs[name]:
                 continue
+            subvalue = value    # the value bound in this sub space only
             if isinstance(value, Interface) and value._is_valid():
                 if (refmode == "auto"
                         or refmode == "relative"):
-                    is_relative, value = self.get_relative_interface(
+                    is_relative, subvalue = self.get_relative_interface(
                         subspace, space.own_refs[name])
-            ref = subspace.on_change_ref(name, value,
+            ref = subspace.on_change_ref(name, subvalue,
                                          is_derived=True, refmode=refmode,
                                          is_relative=is_relative)
             ref.is_relative = is_relative
